@@ -325,7 +325,7 @@ Theorem meta_sem_ok_simple nodes o p :
   meta_hyps nodes -> opt_meta nodes o = Ok p -> pass_sem_ok nodes p.
 Proof.
   intros (Ct & Rg & Sm & Ty) H tape vals V tape' Tc. apply eval_graph_nodes_valuation in V.
-  destruct (meta_sem_thm (fun _ _ => TTuple []) _ _ _ _ _ V Ct Rg Sm Ty H) as (_ & _ & K).
+  destruct (meta_sem_thm (fun _ _ => TTuple []) _ _ _ _ _ V Ct Rg Sm Ty H) as (_ & _ & _ & K).
   destruct (K tape' Tc) as (vals' & V' & S). exists vals'. split; auto. now apply eval_graph_nodes_valuation.
 Qed.
 
@@ -339,7 +339,7 @@ Theorem meta_sem_transport nodes o p tape vals :
                            nth_error (po_map p) (Z.to_nat x) = Some (po_output p)).
 Proof.
   intros (Ct & Rg & Sm & Ty) H V. pose proof V as V0. apply eval_graph_nodes_valuation in V.
-  destruct (meta_sem_thm (fun _ _ => TTuple []) _ _ _ _ _ V Ct Rg Sm Ty H) as (F & _ & K).
+  destruct (meta_sem_thm (fun _ _ => TTuple []) _ _ _ _ _ V Ct Rg Sm Ty H) as (F & _ & _ & K).
   destruct (K _ (transport_compat _ _ _ tape F)) as (vals' & V' & S).
   exists vals'. split; [now apply eval_graph_nodes_valuation|]. split; auto.
   now apply meta_struct_thm in H.
@@ -396,7 +396,7 @@ Proof.
   destruct (Ty1 Ic Tn) as (Tn1 & Mt1).
   destruct (const_sem_transport _ _ _ _ _ Ct E1 V) as (v1 & V1 & S1 & _).
   pose proof V1 as V1v. apply eval_graph_nodes_valuation in V1v.
-  destruct (meta_sem_thm infer _ _ _ _ _ V1v Ct1 (Fd1 Fd) (So1 So) (Mt1 Mt) E2) as (F2 & Tn2 & K2).
+  destruct (meta_sem_thm infer _ _ _ _ _ V1v Ct1 (Fd1 Fd) (So1 So) (Mt1 Mt) E2) as (F2 & Tn2 & _ & K2).
   destruct (K2 _ (transport_compat _ _ _ (transport (po_map p1) tape) F2)) as (v2 & V2v & S2).
   pose proof V2v as V2. apply eval_graph_nodes_valuation in V2.
   pose proof (meta_preserves_nokey _ _ _ E2 (Nk1 Nk)) as Nk2.
@@ -455,7 +455,7 @@ Proof.
   destruct (Ty1 Ic Tn) as (Tn1 & Mt1).
   destruct (const_sem_transport _ _ _ _ _ Ct E1 V) as (v1 & V1 & S1 & _).
   apply eval_graph_nodes_valuation in V1.
-  destruct (meta_sem_thm infer _ _ _ _ _ V1 Ct1 (Fd1 Fd) (So1 So) (Mt1 Mt) E2) as (_ & Tn2 & _).
+  destruct (meta_sem_thm infer _ _ _ _ _ V1 Ct1 (Fd1 Fd) (So1 So) (Mt1 Mt) E2) as (_ & Tn2 & _ & _).
   destruct (opt_dangling_some _ _ _ E4) as (x3 & Ex3).
   destruct (dup_output_some _ _ _ _ _ (Tn2 Tn1) E3 Ex3) as (x2 & Ex2 & R2 & M3).
   destruct (meta_output_some _ _ _ _ E2 Ex2) as (x1 & Ex1 & R1 & M2).
@@ -494,4 +494,61 @@ Proof.
   destruct (optimize_output infer _ _ _ Ic Tn Ct Fd So Mt H _ _ V) as (x & j & Ex & R & Ej & M).
   destruct (S _ _ M) as (J & (v & V1 & V2) & _).
   exists x, j, v. repeat split; auto. lia.
+Qed.
+
+(* ------------------------------------------------------------------ annotations along the pipeline *)
+Lemma keeps_annots_incl pre out m : keeps pre out m -> bounded m (length out) -> annots_incl pre out m.
+Proof.
+  intros K B i j E. destruct (K _ _ E) as (nd & nd' & N1 & N2 & _ & A & _). destruct (B _ _ E).
+  exists nd, nd'. repeat split; auto. rewrite A. apply incl_refl.
+Qed.
+Lemma keepsC_annots_incl pre out m : keepsC pre out m -> bounded m (length out) -> annots_incl pre out m.
+Proof.
+  intros K B i j E. destruct (K _ _ E) as (nd & nd' & N1 & N2 & _ & A). destruct (B _ _ E).
+  exists nd, nd'. repeat split; auto. destruct A as [(_ & ->)|(-> & _)]; [apply incl_refl|intros x []].
+Qed.
+Lemma annots_incl_compose a b c m1 m2 :
+  annots_incl a b m1 -> annots_incl b c m2 -> annots_incl a c (join_maps m1 m2).
+Proof.
+  intros A1 A2 i k E. apply join_maps_nth in E as (j & E1 & J & E2).
+  destruct (A1 _ _ E1) as (nd & nd' & N1 & _ & N2 & I1).
+  destruct (A2 _ _ E2) as (nd1 & nd1' & N3 & K & N4 & I2).
+  exists nd, nd1'. repeat split; auto. assert (nd1 = nd') by congruence. subst. eapply incl_tran; eauto.
+Qed.
+
+(* every node in the domain of the pipeline's map has an image that carries all its annotations
+   (in particular Send annotations), for the graphs of optimize_sem_simple *)
+Theorem optimize_annots infer nodes o p tape vals :
+  infer_const infer -> typed_nodes infer nodes ->
+  const_typed nodes -> few_deps nodes -> simple_ops nodes -> meta_typed nodes ->
+  optimize_graph nodes o = Ok p ->
+  eval_graph_nodes nodes tape = Ok vals ->
+  annots_incl nodes (po_nodes p) (po_map p).
+Proof.
+  intros Ic Tn Ct Fd So Mt H V.
+  apply optimize_graph_inv in H as (p1 & p2 & p3 & p4 & E1 & E2 & E3 & E4 & En & Eo & Em).
+  destruct (const_preserves infer _ _ _ Ct E1) as (Ct1 & Fd1 & So1 & Nk1 & Ty1).
+  destruct (Ty1 Ic Tn) as (Tn1 & Mt1).
+  destruct (const_sem_transport _ _ _ _ _ Ct E1 V) as (v1 & V1 & S1 & _).
+  apply eval_graph_nodes_valuation in V1.
+  destruct (meta_sem_thm infer _ _ _ _ _ V1 Ct1 (Fd1 Fd) (So1 So) (Mt1 Mt) E2) as (_ & Tn2 & A2 & _).
+  pose proof (const_struct_thm _ _ _ Ct E1) as (_ & B1 & K1 & _).
+  pose proof (dup_struct_thm from_tape infer _ _ _ (Tn2 Tn1) E3) as (_ & B3 & K3 & _).
+  destruct (opt_dangling_some _ _ _ E4) as (x & Ex). rewrite Ex in E4.
+  pose proof (dangling_struct _ _ _ E4) as (_ & B4 & _ & K4 & _).
+  rewrite En, Em.
+  apply annots_incl_compose with (b := po_nodes p3);
+    [apply annots_incl_compose with (b := po_nodes p2); [apply annots_incl_compose with (b := po_nodes p1)|]|].
+  - now apply keepsC_annots_incl.
+  - exact A2.
+  - now apply keeps_annots_incl.
+  - now apply keeps_annots_incl.
+Qed.
+
+Theorem meta_annots nodes o p tape vals :
+  meta_hyps nodes -> opt_meta nodes o = Ok p -> eval_graph_nodes nodes tape = Ok vals ->
+  annots_incl nodes (po_nodes p) (po_map p).
+Proof.
+  intros (Ct & Rg & Sm & Ty) H V. apply eval_graph_nodes_valuation in V.
+  now destruct (meta_sem_thm (fun _ _ => TTuple []) _ _ _ _ _ V Ct Rg Sm Ty H) as (_ & _ & A & _).
 Qed.
